@@ -23,10 +23,121 @@ type liaInfo struct {
 type LIA struct {
 	memo map[*Term]*liaInfo
 	bok  map[*Term]int // 0 unknown, 1 ok, 2 not ok
+	safe map[*Term]*liaInfo // ranges established by a solver query under the path condition
 }
 
 func NewLIA() *LIA {
-	return &LIA{memo: map[*Term]*liaInfo{}, bok: map[*Term]int{}}
+	return &LIA{memo: map[*Term]*liaInfo{}, bok: map[*Term]int{}, safe: map[*Term]*liaInfo{}}
+}
+
+// RangeNeed: the integer view of T must be shown to lie in [Lo,Hi] for the query to be expressible
+type RangeNeed struct {
+	T      *Term
+	Lo, Hi *big.Int
+}
+
+// Needs lists the value-use points of a Bool term whose static bounds do not establish the range the
+// integer view requires (while the term itself is expressible up to congruence).
+func (l *LIA) Needs(t *Term) []RangeNeed {
+	var out []RangeNeed
+	seen := map[*Term]bool{}
+	var needS, needU func(x *Term)
+	var walkB func(x *Term)
+	var walkV func(x *Term)
+	needS = func(x *Term) {
+		walkV(x)
+		if a := l.bv(x); a.ok && !l.signedOK(x) {
+			lo, hi := signedRange(x.W)
+			out = append(out, RangeNeed{x, lo, hi})
+		}
+	}
+	needU = func(x *Term) {
+		walkV(x)
+		if x.IsConst() {
+			return
+		}
+		if a := l.bv(x); a.ok && !l.unsignedOK(x) {
+			lo, hi := unsignedRange(x.W)
+			out = append(out, RangeNeed{x, lo, hi})
+		}
+	}
+	walkV = func(x *Term) {
+		if seen[x] {
+			return
+		}
+		seen[x] = true
+		switch x.Op {
+		case OpZext:
+			needU(x.Args[0])
+		case OpSext:
+			needS(x.Args[0])
+		case OpConcat:
+			needU(x.Args[0])
+			needU(x.Args[1])
+		case OpIte:
+			walkB(x.Args[0])
+			walkV(x.Args[1])
+			walkV(x.Args[2])
+		default:
+			for _, a := range x.Args {
+				if a.W > 0 {
+					walkV(a)
+				}
+			}
+		}
+	}
+	walkB = func(x *Term) {
+		if seen[x] {
+			return
+		}
+		seen[x] = true
+		switch x.Op {
+		case OpNot, OpAnd, OpOr, OpIte:
+			for _, a := range x.Args {
+				if a.W == 0 {
+					walkB(a)
+				} else {
+					walkV(a)
+				}
+			}
+		case OpEq:
+			if x.Args[0].W == 0 {
+				walkB(x.Args[0])
+				walkB(x.Args[1])
+			} else if !((l.signedOK(x.Args[0]) && l.signedOK(x.Args[1])) || (l.unsignedOK(x.Args[0]) && l.unsignedOK(x.Args[1]))) {
+				needS(x.Args[0])
+				needS(x.Args[1])
+			} else {
+				walkV(x.Args[0])
+				walkV(x.Args[1])
+			}
+		case OpBvSlt:
+			needS(x.Args[0])
+			needS(x.Args[1])
+		case OpBvUlt:
+			needU(x.Args[0])
+			needU(x.Args[1])
+		}
+	}
+	walkB(t)
+	return out
+}
+
+// MarkRange records that the integer view of t lies in [lo,hi] under the current path condition.
+func (l *LIA) MarkRange(t *Term, lo, hi *big.Int) {
+	a := l.bv(t)
+	nlo, nhi := lo, hi
+	if a.ok {
+		if a.lo.Cmp(nlo) > 0 {
+			nlo = a.lo
+		}
+		if a.hi.Cmp(nhi) < 0 {
+			nhi = a.hi
+		}
+	}
+	l.safe[t] = &liaInfo{lo: nlo, hi: nhi, ok: true}
+	l.memo = map[*Term]*liaInfo{}
+	l.bok = map[*Term]int{}
 }
 
 var bigOne = big.NewInt(1)
@@ -61,6 +172,9 @@ func constInt(t *Term) *big.Int {
 }
 
 func (l *LIA) bv(t *Term) *liaInfo {
+	if r, ok := l.safe[t]; ok {
+		return r
+	}
 	if r, ok := l.memo[t]; ok {
 		return r
 	}
